@@ -277,6 +277,20 @@ func genSrcTree(rng *rand.Rand, maxFiles int, wide bool) *srcTree {
 		}
 	}
 	rec("", 0)
+	// names that begin with dots are ordinary names (".env", "..data" as Kubernetes volumes have
+	// it, an empty ".cache"), at the top of the tree and below it, with and without a dot-less twin
+	if rng.Intn(3) == 0 {
+		t.files[".env"] = randData(rng, 30)
+		t.files["..data/current"] = randData(rng, 30)
+		t.dirs = append(t.dirs, "..data", ".cache")
+		if rng.Intn(2) == 0 {
+			t.files["env"] = randData(rng, 31)
+			t.dirs = append(t.dirs, "cache")
+		}
+		if len(t.dirs) > 3 {
+			t.files[t.dirs[0]+"/.hidden"] = randData(rng, 1)
+		}
+	}
 	if wide {
 		t.dirs = append(t.dirs, "wide")
 		for i := 0; i < 1500; i++ {
